@@ -73,6 +73,7 @@ fn pool() -> Vec<Vec<u8>> {
     { let mut p = vec![]; p.extend(ins(0xbf, 0, 11, 0, 0)); p.extend(EXIT); v.push(p); }                                              // 7: invalid for default and custom (src r11)
     { let mut p = vec![]; p.extend(ins(0x07, 0, 0, 0, 5)); p.extend(ins(0xb7, 0, 0, 0, 0x400)); p.extend(EXIT); v.push(p); }       // 8: valid for default, rejected by custom (first opcode not mov)
     { let mut p = vec![]; p.extend(ins(0x79, 2, 1, 0, 0)); p.extend(ins(0x79, 3, 1, 8, 0)); p.extend(ins(0xbf, 0, 3, 0, 0)); p.extend(ins(0x1f, 0, 2, 0, 0)); p.extend(ins(0x07, 0, 0, 0, 0x500)); p.extend(EXIT); v.push(p); } // 9: fixed-metadata VM only: end slot - start slot (+0x500), slots at offsets 0 and 8
+    { let mut p = vec![]; p.extend(ins(0x79, 0, 1, 16, 0)); p.extend(EXIT); v.push(p); } // 10: fixed-metadata VM only: the 8 bytes at offset 16 of the metadata buffer (0 in a fresh buffer unless an offset is 16)
     v
 }
 
@@ -88,7 +89,7 @@ pub fn gen(w: &mut impl Write, thorough: bool, seed: u64) {
         let len = 1 + r.below(if i % 10 == 0 { 40 } else { 14 });
         // mini-model of (verifier in force, loaded program) so that an unsafe program (6: no exit, 7: register r11) is only ever
         // offered to a verifier that rejects it
-        let accepts = |v: u32, p: usize| -> bool { match v { 0 => [0usize, 1, 2, 3, 4, 8, 9].contains(&p), 1 => true, 2 => false, _ => p <= 6 } };
+        let accepts = |v: u32, p: usize| -> bool { match v { 0 => [0usize, 1, 2, 3, 4, 8, 9, 10].contains(&p), 1 => true, 2 => false, _ => p <= 6 } };
         let safe = |p: usize| p != 6 && p != 7;
         let mut verifier = 0u32;
         let mut loaded: Option<usize> = init.parse::<usize>().ok();
@@ -96,9 +97,11 @@ pub fn gen(w: &mut impl Write, thorough: bool, seed: u64) {
         for _ in 0..len {
             let op = match r.below(16) {
                 0..=2 => { let cand: Vec<usize> = (0..(if kind == "fixed" { 10 } else { 9 })).filter(|p| safe(*p) || !accepts(verifier, *p)).collect();
-                    let p = if kind == "fixed" && r.chance(1, 3) { 9 } else { *r.pick(&cand) }; if accepts(verifier, p) { loaded = Some(p); }
-                    // program 9 reads the slots at offsets 0 and 8: it is only ever loaded with those offsets
-                    if kind == "fixed" && p != 9 && r.chance(1, 2) { format!("sp:{}:{}:{}", p, 8 * r.below(4), 32 + 8 * r.below(4)) } else { format!("sp:{}", p) } }
+                    let p = if kind == "fixed" && r.chance(1, 3) { if r.chance(1, 2) { 9 } else { 10 } } else { *r.pick(&cand) }; if accepts(verifier, p) { loaded = Some(p); }
+                    // program 9 reads the slots at offsets 0 and 8: it is only ever loaded with those offsets;
+                    // program 10 reads offset 16: only loaded with offsets that do not use it and a buffer of at least 24 bytes (result 0 in a fresh buffer)
+                    if p == 10 { let (d, e) = *r.pick(&[(0u64, 24u64), (8, 32), (0, 40), (24, 32), (32, 0)]); format!("sp:{}:{}:{}", p, d, e) }
+                    else if kind == "fixed" && p != 9 && r.chance(1, 2) { format!("sp:{}:{}:{}", p, 8 * r.below(4), 32 + 8 * r.below(4)) } else { format!("sp:{}", p) } }
                 3 => { let v = 1 + r.below(3) as u32;
                     if loaded.map(|p| accepts(v, p)).unwrap_or(true) { verifier = v; }
                     format!("sv:{}", v) }
